@@ -18,9 +18,24 @@
 #include <script/script.h>
 #include <uint256.h>
 
+#include <csetjmp>
+#include <csignal>
 #include <memory>
 
 namespace {
+// A failing assert()/Assert() inside the functions under test must not take the whole run down: it is reported as
+// the result of that case ("CRASH SIGABRT").
+sigjmp_buf g_jmp;
+void on_abort(int) { siglongjmp(g_jmp, 1); }
+void install_abort_handler()
+{
+    struct sigaction sa {};
+    sa.sa_handler = on_abort;
+    sigemptyset(&sa.sa_mask);
+    sa.sa_flags = SA_NODEFER;
+    sigaction(SIGABRT, &sa, nullptr);
+}
+
 struct SynthChain {
     std::vector<std::unique_ptr<CBlockIndex>> v;
     explicit SynthChain(const std::vector<uint32_t>& times)
@@ -55,6 +70,7 @@ CMutableTransaction make_tx(uint32_t version, uint32_t locktime, const std::vect
 
 int main()
 {
+    install_abort_handler();
     return vd::main_loop([&](const std::vector<std::string>& w, const std::string&) -> std::string {
         if (w.empty()) return "BADCASE";
         size_t p = 1;
@@ -102,6 +118,7 @@ int main()
                 }
             }
             std::vector<int> prev1 = prev, prev2 = prev;
+            if (sigsetjmp(g_jmp, 1)) return "CRASH SIGABRT";
             const auto lp = CalculateSequenceLocks(tx, flags, prev1, c.tip());
             const bool ev = EvaluateSequenceLocks(c.tip(), lp);
             const bool sl = SequenceLocks(tx, flags, prev2, c.tip());
